@@ -57,6 +57,8 @@ def jobs(tier, templates=None):
                 j["caps"] = {"15": 3}     # relaxed mode's extended loop: 3 of its 15 iterations in the quick tier
                 js.append(j)
             elif mode == 2:
+                if tpl not in ("tuple", "rgb", "hsl", "hex6"):
+                    continue   # thorough: relaxed mode in full (15 iterations) on four spellings, 4 shards each
                 for i in range(4):
                     js.append(dict(j, shard=[i, 4, 40]))
             else:
@@ -70,7 +72,7 @@ def meta_for(tier):
                    "three concrete representatives (%s) against all backgrounds" % ", ".join(apimod.HEX_CONCRETE.values()),
                    "all 12 settings (mode x large_text x very_readable), each its own job",
                    "mode 1: all 10 iterations; mode 2: %s" % ("extended loop truncated to 3 of 15 iterations (quick tier), two spellings" if tier == "quick"
-                                                              else "all 15 iterations, all spellings")]
+                                                              else "all 15 iterations, four spellings (tuple, rgb(), hsl(), hex)")]
     m["outside"] = ["what the numeric search actually returns (C03, n/a)", "hex digit formatting (bounded clause of C06)"]
     return m
 
